@@ -101,9 +101,10 @@ Definition contained_in (l r : pv) : outcome value_eval_result :=
       match r with
       | PList _ rhsl =>
           if (match rhsl with x :: _ => is_list x | [] => false end) then
+            (* a list looked up as one member of a list of lists: plain membership (fix in /repo: ValueIn) *)
             c <-- contains_pv re rhsl l ;;
-            Done (if c then VComparison (CRSuccess (CListIn [] l r))
-                  else VComparison (CRFail (CListIn [l] l r)))
+            Done (if c then VComparison (CRSuccess (CValueIn l r))
+                  else VComparison (CRFail (CValueIn l r)))
           else
             diff <-- not_contained lhsl rhsl ;;
             Done (match diff with
